@@ -21,6 +21,10 @@
 (*   /BulkWrite returning after a callback that returned nil   ok (nil)  *)
 (*   Seek, SeekReverse, Next  the position reached, observed through     *)
 (*                            Valid(), Key(), Value(): at(k, v) | inv    *)
+(* An answer is a VALUE: what Key()/Value() returned at a position stays *)
+(* what it was when the iterator moves on (the harness keeps every       *)
+(* answer of a session and of a scan and reads it again at the end;      *)
+(* kvgraph DelVertex collects the keys it iterates over).                *)
 (* Steps flagged c carry the committed contents s (sorted) that a full   *)
 (* forward scan View{Seek(""); Valid/Key/Value/Next ...} must return.    *)
 (*                                                                       *)
